@@ -4,6 +4,7 @@ import (
 	"fmt"
 	"strings"
 
+	"verif/harness/model"
 	"verif/harness/vk"
 )
 
@@ -13,11 +14,18 @@ import (
 
 const c02Shards = 16
 
+// the quick tier runs a spread of the thorough tier's bases: log integration with three one-block partitions,
+// trace and transaction integrations with batch 8 over 3 workers (the latter with reorgs), the defaults, a log
+// integration with reorgs and three partitions, a trace integration with reorgs
+var c02QuickBases = []int{7, 14, 15, 0, 10, 5, c02OddLogBase}
+
+const c02OddLogBase = 1000
+
 func c02Bases(tier string) int {
 	if tier == "thorough" {
 		return 48
 	}
-	return 6
+	return len(c02QuickBases)
 }
 
 func c02Random(tier string) int {
@@ -67,10 +75,17 @@ func c02Base(seed uint64, b int) *pipeScenario {
 		ps.Batch = r.Range(1, 9)
 		ps.Conc = r.Range(1, 3)
 	}
+	if b == c02OddLogBase {
+		// a log integration whose partitions hold an odd number (> 1) of blocks
+		ps.Mode, ps.Batch, ps.Conc, reorg = int(model.ModeLog), 5, 1, false
+	}
 	ps.Notify = b%4 == 1
 	ps.Initial = r.Range(4, 9)
 	ps.StartK = []int{1, 2, 0, 3}[r.Intn(4)]
 	ps.HashPlan = reorg
+	if b == c02OddLogBase {
+		ps.StartK, ps.Initial = 1, r.Range(8, 12) // full batches of five, then a short odd one
+	}
 	nsteps := r.Range(3, 6)
 	for i := 0; i < nsteps; i++ {
 		ps.Hist = append(ps.Hist, histOp{Kind: "step"})
@@ -102,6 +117,11 @@ func c02Run(c *vk.Case) {
 		return
 	}
 	b, shard := c.Index/c02Shards, c.Index%c02Shards
+	if nb == len(c02QuickBases) {
+		b = c02QuickBases[b]
+	} else if b == nb-1 {
+		b = c02OddLogBase
+	}
 	ps := c02Base(c.Seed, b)
 	golden := ps.run(c, runOpts{Snapshots: true, KP: "golden:"})
 	if golden == nil || len(c.Res.Violations) > 0 {
@@ -144,6 +164,10 @@ func c02Run(c *vk.Case) {
 			sig, occ := stripOcc(s)
 			for _, k := range rpcFaults {
 				faults = append(faults, faultSpec{Step: st.Idx, SQLOrd: -1, RPCSig: sig, RPCOcc: occ, Kind: k})
+			}
+			if strings.Contains(sig, "+") {
+				// a batch of several calls: the error member on the last element only
+				faults = append(faults, faultSpec{Step: st.Idx, SQLOrd: -1, RPCSig: sig, RPCOcc: occ, Kind: "rpc-error-last"})
 			}
 		}
 	}
@@ -300,7 +324,7 @@ func c02Random1(c *vk.Case) {
 		switch {
 		case len(st.RPCSigs) > 0 && r.Bool():
 			sig, occ := stripOcc(vk.Pick(r, st.RPCSigs))
-			f = faultSpec{Step: st.Idx, SQLOrd: -1, RPCSig: sig, RPCOcc: occ, Kind: vk.Pick(r, rpcFaults)}
+			f = faultSpec{Step: st.Idx, SQLOrd: -1, RPCSig: sig, RPCOcc: occ, Kind: vk.Pick(r, append([]string{"rpc-error-last"}, rpcFaults...))}
 		case len(st.SQLOps) > 0:
 			f = faultSpec{Step: st.Idx, SQLOrd: vk.Pick(r, st.SQLOps).Ordinal, Kind: vk.Pick(r, sqlFaults)}
 		default:
